@@ -390,6 +390,23 @@ Proof.
       intro Hw. rewrite (leaves_wrap _ _ _ Hw). eapply Hch; eauto.
 Qed.
 
+(* unfolding equations of the specification *)
+Lemma pnode_S_elem f ci st subs :
+  pnode (S f) (NE ci st subs) =
+  match nth_error reg ci with
+  | Some r => match build_element ci r empty_defs with Ok n' => Some n' | _ => None end
+  | None => None
+  end.
+Proof. reflexivity. Qed.
+Lemma pnode_S_conn f c : pnode (S f) (NC c) = pconn f c.
+Proof. reflexivity. Qed.
+Lemma pconn_S_ser f l :
+  pconn (S f) (Ser l) = match flat_children (pnode f) true l with Some items => wrap true items | None => None end.
+Proof. reflexivity. Qed.
+Lemma pconn_S_par f l :
+  pconn (S f) (Par l) = match flat_children (pnode f) false l with Some items => wrap false items | None => None end.
+Proof. reflexivity. Qed.
+
 Lemma ser_has_child f l n' : pconn (S f) (Ser l) = Some n' -> 1 <= length (flat_map (ntoks f) l).
 Proof.
   cbn [pconn]. destruct (flat_children (pnode f) true l) as [items|] eqn:Efc; [|discriminate].
